@@ -201,8 +201,8 @@ fn body(n_versions: usize, with_at: bool) -> impl Fn(&Ch) -> Run + Sync + Send {
         JsrVersionResolver {
           newest_dependency_date_options: NewestDependencyDateOptions {
             date: Some(NewestDependencyDate(cutoff())),
-            exclude_jsr_pkgs: [deno_semver::package::PackageName::from_str("@s/ab")]
-              .into_iter()
+            // near misses of an exact exclusion: a longer name, and names that are proper prefixes of the package's
+            exclude_jsr_pkgs: ["@s/ab", "@s/", "@s", "@"].iter().map(|n| deno_semver::package::PackageName::from_str(n))
               .collect(),
             exclude_jsr_pkg_prefixes: vec![deno_semver::package::PackageName::from_str("@t/")],
           },
